@@ -260,7 +260,10 @@ def renderings(rv, info, rec_path):
             a = strip_refs(x[3][0])
             if a[0] == "field" and a[3] == "prev" and strip_refs(a[1]) == ("param", 1):
                 return ("REC", a[2])
-        return ("val", fmt(x))
+        # not understood: remember whether it depends on this step's key / index at all
+        dep_key = term_mentions(x, lambda y: y[0] == "field" and y[3] == "key" and strip_refs(y[1]) == ("param", 1))
+        dep_index = term_mentions(x, lambda y: y[0] == "field" and y[3] == "index" and strip_refs(y[1]) == ("param", 1))
+        return ("val", fmt(x), dep_key, dep_index)
 
     def merge(ps):
         o = []
@@ -455,10 +458,20 @@ def loc_rules(crate, base, query, res):
         fs.append(und(rule, rv, "the path renderer does not dispatch on the pointer variant: rendering not extracted (undecided)"))
     else:
         rend, problems = renderings(rv, info, rec.path)
-        if not problems and any(p[0] == "val" for lst in rend.values() for c, ps in lst for p in ps):
+        # a piece that is not understood: undecided - unless it stands where the step's own key / index belongs and does not
+        # even depend on it (then the rendered path cannot name this step, whatever the expression computes)
+        for var_, fld_, pos_ in (("Index", "index", 3), ("Key", "key", 2)):
+            for c_, ps_ in rend.get(var_, []):
+                vals_ = [p for p in ps_ if p[0] == "val"]
+                named = any(p == (fld_,) for p in ps_)
+                if vals_ and not named and not any((p[3] if fld_ == "index" else p[2]) for p in vals_):
+                    fs.append(fnd(rule, rv, "the text rendered for %s step does not depend on its %s" % ("an index" if var_ == "Index" else "a key", fld_)))
+        if not problems and not fs and any(p[0] == "val" for lst in rend.values() for c, ps in lst for p in ps):
             problems.append("a piece of the rendered text is not understood")
         if problems:
             fs.append(und(rule, rv, "rendering of a step not extracted (%s) (undecided)" % "; ".join(sorted(set(problems))[:2])))
+        elif any(p[0] == "val" for lst in rend.values() for c, ps in lst for p in ps):
+            pass
         else:
             def show(ps):
                 return "".join(x[1] if x[0] == "lit" else "<%s>" % x[0] for x in ps)
